@@ -86,6 +86,8 @@ def pool_key(key):
     k = re.sub(r"#\d+$", "", key)
     k = re.sub(r"\barg\d+", "arg", k)
     k = re.sub(r"/(overflow:[A-Za-z]+)\(.*\)$", r"/\1", k)
+    # `c[i]` and `c[a..b]` on the same container are the same kind of obligation (position within the container's length)
+    k = re.sub(r"/slice-index\(", "/index(", k)
     return k
 
 
